@@ -69,7 +69,7 @@ def EXACT(
 def FIND(
         find_text: func_xltypes.XlText,
         within_text: func_xltypes.XlText,
-        start_num: func_xltypes.XlNumber = 0,
+        start_num: func_xltypes.XlNumber = 1,
 ) -> func_xltypes.XlNumber:
     """FIND and FINDB locate one text string within a second text string,
     and return the number of the starting position of the first text string
@@ -83,9 +83,10 @@ def FIND(
     find_text_str = str(find_text)
     start_num_int = int(start_num)
 
+    if start_num_int < 1:
+        raise xlerrors.ValueExcelError(f'{start_num_int} is < 1')
     # Excel operates in 1-based land, Python is usually 0-based.
-    if start_num_int > 0:
-        start_num_int = start_num_int - 1
+    start_num_int = start_num_int - 1
 
     try:
         index = within_text_str.index(find_text_str, start_num_int) + 1
